@@ -430,6 +430,8 @@ func runC17(c *Ctx) {
 	}
 	checkDeriveKeyUse(c, "C17-R5")
 	checkSaltedHash(c, "C17-R5")
+	checkInvalidPasswordOnlyOnDigestMismatch(c, "C17-R3")
+	checkChangeVerifiesOldPassphrase(c, "C17-R5")
 	checkNoOverRejectingLengthGuard(c, "C17-R1")
 	checkSnaclErrors(c, "C17-R3")
 	checkSelectedKeyUsedUnderLock(c, "C17-R5")
@@ -802,7 +804,11 @@ func checkSaltedHash(c *Ctx, rule string) {
 	// fast path compares the full hash
 	if ul := c.P.Func("waddrmgr", "Manager", "Unlock"); ul != nil {
 		ok := false
-		for _, b := range ul.Blocks {
+		var blocks []*ssa.BasicBlock
+		for _, f := range c.P.regionOf(ul) { // the fast path may sit in an extracted part of Unlock
+			blocks = append(blocks, f.Blocks...)
+		}
+		for _, b := range blocks {
 			for _, ins := range b.Instrs {
 				bo, isB := ins.(*ssa.BinOp)
 				if !isB || (bo.Op != token.NEQ && bo.Op != token.EQL) {
@@ -819,4 +825,93 @@ func checkSaltedHash(c *Ctx, rule string) {
 		}
 		c.Check(rule, "fast-path-compares-full-hash:Unlock", ul.Pos(), ok, "Unlock's already-unlocked fast path does not compare the full 64-byte salted hash")
 	}
+}
+
+// checkInvalidPasswordOnlyOnDigestMismatch: creation (NewSecretKey) accepts every passphrase, so verification must too:
+// DeriveKey may answer "invalid password" only on the edge where the derived key's digest differs from the stored one.
+// An earlier rejection (empty, too short, too long...) makes a key that was created and used with such a passphrase
+// unopenable after restart: "the same passphrase re-derives the same key" fails at that boundary.
+func checkInvalidPasswordOnlyOnDigestMismatch(c *Ctx, rule string) {
+	_ = c.P
+	dk := snaclMethod(c, rule, "SecretKey", "DeriveKey")
+	if dk == nil {
+		return
+	}
+	mismatch := func(from *ssa.BasicBlock, si int) bool {
+		iff, ok := from.Instrs[len(from.Instrs)-1].(*ssa.If)
+		if !ok {
+			return false
+		}
+		cond, _ := unwrapNot(iff.Cond)
+		bo, ok := cond.(*ssa.BinOp)
+		if !ok {
+			if call, isCall := cond.(*ssa.Call); isCall && calleeShort(&call.Call) == "Equal" {
+				return true
+			}
+			return false
+		}
+		return isResultOfCall(bo.X, "ConstantTimeCompare", -1) || isResultOfCall(bo.Y, "ConstantTimeCompare", -1)
+	}
+	n := 0
+	for _, b := range dk.Blocks {
+		r, ok := b.Instrs[len(b.Instrs)-1].(*ssa.Return)
+		if !ok || len(r.Results) == 0 {
+			continue
+		}
+		for _, pr := range append([]*ssa.BasicBlock{nil}, b.Preds...) {
+			if !isGlobalLoad(resolvePhi(effectiveResult(r, len(r.Results)-1), b, pr), "ErrInvalidPassword") {
+				continue
+			}
+			n++
+			okR := !reachableAvoiding(dk, nil, r, mismatch)
+			c.Check(rule, "invalid-password-only-on-digest-mismatch", r.Pos(), okR,
+				"SecretKey.DeriveKey can answer ErrInvalidPassword without having compared the derived key's digest with the stored one (a rejection by shape: empty / short / long passphrase), although NewSecretKey creates keys from such passphrases: the exact passphrase stops working after restart")
+			break
+		}
+	}
+	c.Floor(rule, "ErrInvalidPassword returns in DeriveKey", n, 1)
+}
+
+// checkChangeVerifiesOldPassphrase: "accepts only the exact passphrase": Manager.ChangePassphrase proves knowledge of the
+// old passphrase by deriving the old master key from it — on every path that goes on to write new key material,
+// unlocked or not. A shortcut that takes the in-memory master key instead lets any "old passphrase" re-key an unlocked
+// wallet.
+func checkChangeVerifiesOldPassphrase(c *Ctx, rule string) {
+	p := c.P
+	cp := p.Func("waddrmgr", "Manager", "ChangePassphrase")
+	if cp == nil {
+		c.Unresolved(rule, "Manager.ChangePassphrase")
+		return
+	}
+	if len(cp.Params) < 3 {
+		c.Unresolved(rule, "old-passphrase parameter of ChangePassphrase")
+		return
+	}
+	old := cp.Params[2] // recv, ns, oldPassphrase
+	verifies := func(ins ssa.Instruction) bool {
+		call, ok := ins.(*ssa.Call)
+		if !ok || calleeShort(&call.Call) != "DeriveKey" || len(call.Call.Args) < 2 {
+			return false
+		}
+		a := call.Call.Args[len(call.Call.Args)-1]
+		if al, ok := a.(*ssa.Alloc); ok {
+			for _, st := range storesTo(al) {
+				if st.Val == ssa.Value(old) {
+					return true
+				}
+			}
+		}
+		return false
+	}
+	n := 0
+	for _, w := range []string{"putMasterKeyParams", "putCryptoKeys"} {
+		for _, call := range callsNamed(cp, w) {
+			n++
+			q := &PathQuery{Fn: cp, Barrier: verifies}
+			q.Target = func(ins ssa.Instruction, _ *ssa.BasicBlock) bool { return ins == ssa.Instruction(call) }
+			c.Check(rule, "old-passphrase-verified-before:"+w, call.Pos(), len(q.From(nil)) == 0,
+				"Manager.ChangePassphrase can reach "+w+" without having derived the old master key from the given old passphrase (SecretKey.DeriveKey(&oldPassphrase)): on that path any value is accepted as the old passphrase")
+		}
+	}
+	c.Floor(rule, "key-material writes in ChangePassphrase", n, 2)
 }
